@@ -164,7 +164,10 @@ fn check_layout(toks: &[Tok], fillers: &[usize], menu: &[(&'static str, FClass)]
 }
 
 fn layout_sweep(name: &str, min_len: usize, max_len: usize, deviations: usize) -> Sweep {
-    let g = Grammar::load();
+    layout_sweep_over(name, Grammar::load(), min_len, max_len, deviations)
+}
+
+fn layout_sweep_over(name: &str, g: Grammar, min_len: usize, max_len: usize, deviations: usize) -> Sweep {
     let sentences = Rc::new(RefCell::new(Sentences::new(g.clone(), min_len, max_len)));
     let total = sentences.borrow().total;
     let g2 = g.clone();
@@ -281,12 +284,20 @@ impl Prop for C10 {
             c09::string_sweep("strings over Σlay", sigma_lay(), 0, tier.pick(6, 7), "C10"),
             layout_sweep("layouts, 1 deviation", 1, tier.pick(5, 6), 1),
             layout_sweep("layouts, 2 deviations", 1, tier.pick(4, 5), 2),
+            // definition groups: where `;` and separating line breaks actually occur
+            layout_sweep_over(
+                "layouts of definition groups, 1 deviation, every `;` swapped for separating line breaks",
+                crate::props::c07::slices(&Grammar::load()).into_iter().find(|(n, _)| *n == "let-groups").unwrap().1,
+                5,
+                tier.pick(11, 15),
+                1,
+            ),
         ]
     }
     fn evidence(&self, tier: Tier) -> EvidenceSpec {
         EvidenceSpec {
             level: "model_checking",
-            rule: "states are layouts (sentence of grammar.y over the full 28-terminal alphabet, vector of gap fillers); transitions replace one gap's filler from a 17-entry menu (spaces, tabs, CR, line breaks single/multiple/padded/CRLF, comments empty / ASCII / ending in 2- and 4-byte characters / containing code, end-of-file comments); every state with at most d non-default gaps is visited and the real token stream is compared with the stream predicted by the rule of C10; every `;` between an ender and a starter is additionally swapped for 4 separating fillers and the parse trees compared. Plus every string of at most k fragments over the 12-fragment layout alphabet against the reference lexer. evaluations = strings + sentences; non-trivial = sentences with at least one applicable deviation, strings with at least two fragments".to_owned(),
+            rule: "states are layouts (sentence of grammar.y over the full 28-terminal alphabet, vector of gap fillers); transitions replace one gap's filler from a 17-entry menu (spaces, tabs, CR, line breaks single/multiple/padded/CRLF, comments empty / ASCII / ending in 2- and 4-byte characters / containing code, end-of-file comments); every state with at most d non-default gaps is visited and the real token stream is compared with the stream predicted by the rule of C10; every `;` between an ender and a starter is additionally swapped for 4 separating fillers and the parse trees compared (also on all sentences of a definition-group sub-grammar up to 11/15 tokens, where most `;` live). Plus every string of at most k fragments over the 12-fragment layout alphabet against the reference lexer. evaluations = strings + sentences; non-trivial = sentences with at least one applicable deviation, strings with at least two fragments".to_owned(),
             assumptions: vec![
                 "ENDERS = identifier, literal, type int bool true false, ) } ;  STARTERS = identifier, literal, type int bool true false, if ( { ;  (written out from the property text)".to_owned(),
                 "line breaks adjacent to an explicit `;` do separate (the `;` counts as both an ender and a starter)".to_owned(),
@@ -298,7 +309,7 @@ impl Prop for C10 {
             traces: Some("traces_validated"),
             exhaustive: true,
             bounds: json!({"sigma_lay_max_fragments": tier.pick(6, 7), "one_deviation_max_tokens": tier.pick(5, 6), "two_deviations_max_tokens": tier.pick(4, 5)}),
-            minimums: vec![("states", 100_000), ("comment_and_break_layouts", 1_000), ("terminator_swaps", 100), ("ok_tokens", 10_000)],
+            minimums: vec![("states", 100_000), ("comment_and_break_layouts", 1_000), ("terminator_swaps", 2_000), ("ok_tokens", 10_000)],
         }
     }
 }
